@@ -878,6 +878,47 @@ class Exec(Interp):
                                 requeue.append(tgt)
         return requeue
 
+    def record_loop_reads(self, inst, frame, h, inputs, edges):
+        """Side table for coverage rules: for a counting loop (counter starts at a constant c0, +1 per back edge)
+        the offsets d of the element reads `seq[i + d]` made in its body, per sequence."""
+        body = self.loop_body(inst, h)
+        J = inputs.get(h)
+        if J is None:
+            return
+        preds = self.preds_of(inst)
+        back = [p for p in preds.get(h, []) if p in body and (p, h) in edges and not edges[(p, h)].dead]
+        entry = [p for p in (["entry"] if h == 0 else []) + preds.get(h, []) if p not in body and (p, h) in edges and not edges[(p, h)].dead]
+        if not back or not entry:
+            return
+        for cell, v in list(J.cells.items()):
+            if not (isinstance(cell, tuple) and len(cell) == 2 and cell[0] == frame and isinstance(v, Scalar)):
+                continue
+            i = v.sym
+            key = self.st.keys[i]
+            if not (isinstance(key, tuple) and key[0] == "phi" and key[1] == (frame, h)):
+                continue
+            c0s = set()
+            for p in entry:
+                ev = edges[(p, h)].cells.get(cell)
+                iv = edges[(p, h)].ivof(ev.sym) if isinstance(ev, Scalar) else None
+                c0s.add(D.lo(iv) if iv is not None and D.is_point(iv) else None)
+            if len(c0s) != 1 or None in c0s:
+                continue
+            if not all(isinstance(edges[(p, h)].cells.get(cell), Scalar) and edges[(p, h)].lin.get(edges[(p, h)].cells[cell].sym) == Lin({i: 1}, 1) for p in back):
+                continue
+            per_seq = {}
+            for e, info in self.elem_of.items():
+                ln, idx, blk, fpath = info
+                if blk not in body or isinstance(idx, tuple):
+                    continue
+                t = self.elem_idx_term.get(e)
+                if t is not None and set(t.t) == {i} and t.t[i] == 1:
+                    per_seq.setdefault(ln, set()).add(t.c)
+            for ln, offs in per_seq.items():
+                rec = {"function": inst["name"], "loop_head": h, "len_sym": ln, "start": c0s.copy().pop(), "offsets": sorted(offs)}
+                if rec not in self.loop_reads:
+                    self.loop_reads.append(rec)
+
     def forall_shrink_rule(self, inst, frame, h, inputs, edges):
         """Validation loop over a shrinking slice: `while let [x, rest @ ..] = cur { ..x..; cur = rest }`.
         A local holds a reference to a slice; on every back edge it holds the tail `[1..]` of what it held at the
@@ -1149,6 +1190,7 @@ class Exec(Interp):
                 for h_ in sorted(heads):
                     work.extend(t_ for t_ in self.forall_rule(inst, frame, h_, inputs, edges) if t_ not in work)
                     work.extend(t_ for t_ in self.forall_shrink_rule(inst, frame, h_, inputs, edges) if t_ not in work)
+                    self.record_loop_reads(inst, frame, h_, inputs, edges)
                 if work:
                     continue
             break
